@@ -374,6 +374,8 @@ impl C12 {
                 let _ = exec(&mut f.xot, &op);
             }
         }
+        // a parsed document with xml:id values: the id index must be cloned too
+        let id_doc = guard(|| f.xot.parse("<r xml:id=\"i1\"><s xml:id=\"i2\"/>t</r>")).ok().and_then(|r| r.ok());
         let before = match forest_state(&f.xot) {
             Ok(b) => b,
             Err(_) => return,
@@ -394,6 +396,52 @@ impl C12 {
                     "handles denote other nodes in the cloned Xot",
                     "C12/Xot::clone/differs".to_string(),
                     J::obj().set("forest", J::s(start_desc)).set("what", J::s(format!("{:?}", other.map(|_| "forest differs")))),
+                );
+                return;
+            }
+        }
+        // the id index and the consolidation switch are part of the store
+        if let Some(d) = id_doc {
+            for id in ["i1", "i2", "nosuch"] {
+                let a = guard(|| f.xot.xml_id_node(d, id)).ok();
+                let b = guard(|| copy.xml_id_node(d, id)).ok();
+                if a != b {
+                    ctx.violation(
+                        "xml_id_node answers differently in the cloned Xot",
+                        "C12/Xot::clone/xml-id-index-differs".to_string(),
+                        J::obj().set("id", J::s(id)).set("original", J::s(format!("{:?}", a))).set("clone", J::s(format!("{:?}", b))),
+                    );
+                    return;
+                }
+            }
+            ctx.count("xot_clone_id_index_checked");
+        }
+        if f.xot.verif_text_consolidation() != copy.verif_text_consolidation() {
+            ctx.violation(
+                "the text-consolidation switch differs in the cloned Xot",
+                "C12/Xot::clone/consolidation-switch-differs".to_string(),
+                J::obj().set("original", J::Bool(f.xot.verif_text_consolidation())).set("clone", J::Bool(copy.verif_text_consolidation())),
+            );
+            return;
+        }
+        // ... also behaviourally: the same two appends give the same result in both stores
+        {
+            let mut a = f.xot.clone();
+            let mut b = copy.clone();
+            let probe = |x: &mut Xot| -> Option<usize> {
+                let n = x.add_name("probe");
+                let e = x.new_element(n);
+                x.append_text(e, "a").ok()?;
+                x.append_text(e, "b").ok()?;
+                Some(x.children(e).count())
+            };
+            let ra = guard(|| probe(&mut a)).ok().flatten();
+            let rb = guard(|| probe(&mut b)).ok().flatten();
+            if ra != rb {
+                ctx.violation(
+                    "the same calls behave differently in the cloned Xot",
+                    "C12/Xot::clone/behaviour-differs".to_string(),
+                    J::obj().set("original_children_after_two_append_text", J::s(format!("{:?}", ra))).set("clone", J::s(format!("{:?}", rb))),
                 );
                 return;
             }
